@@ -517,7 +517,8 @@ BIND_RULE = ("(statement, sample list, argument list) triples from the seeded ty
              "slices of 63..4097 elements (thorough: up to 16385), 62..1026 output columns); in a third of the cases the Statement "
              "has already been run on the same DB with arguments of another shape (other omitempty pattern with as many or other "
              "many columns, other lengths, one struct <-> a slice of it, empty) and the SQL is read from the driver statement "
-             "that is executed; type shapes and argument values are dumped by the harness's own reflection walk; a case is "
+             "that is executed; type shapes and argument values are dumped by the harness's own reflection walk; typed nil "
+             "pointers in members of interface type go to the implementation only (fixed probe, no-panic oracle); a case is "
              "non-trivial iff distinct and the statement parses")
 
 
@@ -822,7 +823,9 @@ PROPS = {
                      iter_run_spec(proj_iter_c18, ["C18"], nq=2000)]},
     "C12": {"runs": [tx_run_spec(["C12"])]},
     "C09": {"runs": [cache_run_spec(proj_cache_events, ["C09"]), tx_run_spec(["C09", "C12"], compare=False, nq=200)]},
-    "C10": {"runs": [cache_run_spec(proj_cache_full, ["C10"])]},
+    "C10": {"runs": [cache_run_spec(proj_cache_full, ["C10"]),
+                     # a Query of a transaction held past its end fails with ErrTXDone, not with a closed statement
+                     tx_run_spec(["C10"], compare=False, nq=200, nt=10000)]},
     "C11": {"runs": [cache_run_spec(proj_cache_full, ["C11"]),
                      # a result set that is never closed pins its sql.Stmt: the driver statement is then never closed either
                      iter_run_spec(proj_iter_account, ["C11"], nq=1500, nt=50000),
